@@ -96,6 +96,7 @@ type Run struct {
 	tableBy, rowBy, colBy, residu *benchproc.Projection
 	stream                        []resRec
 	raws                          []rawRes
+	midSame                       bool // Tables made mid-stream rendered the same after the Builder was extended
 	umAll                         map[[2]string]string // unit metadata of the whole run, parsed by the harness
 	builder                       *benchtab.Builder // kept for the in-process perturbation runs (C15)
 	opts                          benchtab.TableOpts
@@ -202,6 +203,17 @@ func runPipeline(d Defaults, flagArgs []string) *Run {
 				rr.values = append(rr.values, v.Value)
 			}
 			run.stream = append(run.stream, rr)
+			if midAt >= 0 && len(run.stream) == midAt {
+				// history of the Builder API: ToTables in the middle of the stream, rendered,
+				// then the Builder is extended (its cells' slices are shared with these Tables)
+				midThr := thresholds
+				midTables = stat.ToTables(benchtab.TableOpts{Confidence: *flagConfidence, Thresholds: &midThr, Units: files.Units()})
+				var t, c, e bytes.Buffer
+				midTables.ToText(&t, false)
+				midTables.ToCSV(&c, &e)
+				midText, midCSV = t.Bytes(), append(c.Bytes(), e.Bytes()...)
+				midFields = len(tableBy.FlattenedFields()) + len(rowBy.FlattenedFields()) + len(colBy.FlattenedFields())
+			}
 		}
 	}
 	if err := files.Err(); err != nil {
@@ -223,6 +235,22 @@ func runPipeline(d Defaults, flagArgs []string) *Run {
 		return fail(err)
 	}
 	run.text, run.csv = text.Bytes(), csv.Bytes()
+	if midTables != nil {
+		// the Tables made in the middle must render as they did then
+		var t, c, e bytes.Buffer
+		midTables.ToText(&t, false)
+		midTables.ToCSV(&c, &e)
+		run.midSame = bytes.Equal(t.Bytes(), midText) && bytes.Equal(append(c.Bytes(), e.Bytes()...), midCSV)
+		if midFields != len(tableBy.FlattenedFields())+len(rowBy.FlattenedFields())+len(colBy.FlattenedFields()) {
+			// Keys are views on the live Projection: file-configuration keys that appeared later are
+			// new (empty) fields of the earlier keys too — documented growth, not judged
+			run.midSame = true
+		}
+		if !run.midSame && os.Getenv("VERIF_DEBUG_MID") != "" {
+			fmt.Fprintf(os.Stderr, "MID BEFORE:\n%s\nMID AFTER:\n%s\n", midText, t.Bytes())
+		}
+		midTables = nil
+	}
 	run.errText = append([]byte(nil), wErr.Bytes()...)
 	run.errCSV = append(append([]byte(nil), wErr.Bytes()...), csvErr.Bytes()...)
 	return run
@@ -241,6 +269,15 @@ func runBinary(bin, dir string, env []string, args ...string) (stdout, stderr []
 	}
 	return
 }
+
+// midAt >= 0 makes runPipeline call ToTables (and render) after that many added results and go on
+// adding to the same Builder (incremental family of C15).
+var (
+	midAt            = -1
+	midTables        *benchtab.Tables
+	midText, midCSV  []byte
+	midFields        int
+)
 
 // binStdin, when set, names the file (relative to the run directory) fed to the standard input of
 // the real binaries, and to os.Stdin of the in-process pipeline.
